@@ -33,6 +33,7 @@ type Received struct {
 	Files         map[string]FilePart    `json:"files,omitempty"` // variable path -> part
 	Invalid       []string               `json:"invalid,omitempty"`
 	OpKeyword     string                 `json:"op,omitempty"`
+	TouchedArgs   map[string]int         `json:"-"`
 }
 
 type FilePart struct {
@@ -123,6 +124,7 @@ func (s *Service) Handle(r *Received) map[string]interface{} {
 	}
 	r.OpKeyword = string(op.Operation)
 	res := ex.Execute(doc, r.OperationName, r.Variables)
+	r.TouchedArgs = res.TouchedArgs
 	if len(res.Errors) > 0 {
 		var list []interface{}
 		for _, e := range res.Errors {
